@@ -53,6 +53,7 @@ fn main() {
         "C19" => dgh::c19::run(&tier, seed),
         "C05" => dgh::c05::run(&tier, seed),
         "C02" => dgh::walkprops::run_c02(&tier, seed),
+        "C07" => dgh::c07::run(&tier, seed),
         _ => {
           eprintln!("unknown property {}", prop);
           std::process::exit(2)
